@@ -140,6 +140,7 @@ let parse_prog (tok : string) : op list =
       | ["r"; t] -> OResolve (tuple_of_token t)
       | ["u"; t] -> OUnreg (tuple_of_token t)
       | ["e"; k; d] -> OEmitH (nat_of_int (int_of_string k), EAdd, z_of_decimal d)
+      | ["S"; k; d] -> OEmitH (nat_of_int (int_of_string k), ESet, z_of_decimal d)
       | ["a"; t; d] -> OEmitT (tuple_of_token t, EAdd, z_of_decimal d)
       | _ -> failwith "bad op") (String.split_on_char '/' tok)
 
@@ -175,7 +176,7 @@ let observe (c : cfg) (setup : op list) (setup_out : res list) (progs : op list 
   let total = List.fold_left (fun a p -> a + int_of_z (prog_weight c.c_kind p)) 0 (setup :: progs) in
   "m=" ^ String.concat "+" (List.map (fun (t, v, _) -> t ^ ":" ^ string_of_int v) live) ^
   ";c=" ^ decimal_of_z s.cnt ^ ";d=" ^ decimal_of_z s.drops ^ ";u=" ^ decimal_of_z s.unknown ^
-  ";s=" ^ decimal_of_z s.stales ^ ";lost=" ^ string_of_int (total - acc) ^ ";" ^ String.concat ";" (sp :: tps)
+  ";s=" ^ decimal_of_z s.stales ^ ";lost=" ^ string_of_int (if c.c_kind = KGauge then 0 else total - acc) ^ ";" ^ String.concat ";" (sp :: tps)
 
 (* property monitor over an observation string: list of violated clauses *)
 let monitor (cap : int) (obs : string) : string list =
